@@ -263,7 +263,10 @@ def body(ctx):
     blocks, meta = [], {}
     k = 0
     for u in sel:
-        for r in REPS11[:10]:  # long double travels through memory (x87 padding): not analysed at IR level
+        # (long double travels through memory - x87 padding - and is not analysed at IR level);
+        # the character types are all distinct from each other: int8_t / uint8_t are `signed char` /
+        # `unsigned char`, plain `char` is a third 8-bit type, and the wide ones promote as well
+        for r in REPS11[:10] + ["char", "signed char", "unsigned char", "wchar_t", "char16_t"]:
             blocks.append((k, 'extern "C" void prq_%d(std::ostream &os, %s x) { os << au::make_quantity<au::%s>(x); }\n'
                               'extern "C" void prp_%d(std::ostream &os, %s x) { os << au::make_quantity_point<au::%s>(x); }' % (k, r, u.name, k, r, u.name)))
             meta[k] = (u, r)
@@ -333,7 +336,7 @@ def body(ctx):
     ctx.require(ns[0] >= 100, "only %d streaming wrappers analysed" % ns[0])
     ctx.coverage.update(dict(
         evaluations=nob + len(items) * len(configs) + ns[0], distinct_nontrivial=nob + len(items) + ns[0],
-        rule="label text and sizeof of seeded unit expression trees (labelled and unlabelled atoms, integer / rational / irrational scalings, negative and fractional exponents, prefixes, nested products) extracted from the constant evaluator and compared, up to the order of factors, with the documented grammar; re-asserted on both compilers; own-label rule over every unit-like record of au/units (S) with derived-without-label units; prefix x unit labels; common-unit EQUIV labels; IToA/UIToA on boundary and seeded 64-bit integers; streaming wrappers per (unit, 10 reps, quantity|point): resolved callee sequence in the IR",
+        rule="label text and sizeof of seeded unit expression trees (labelled and unlabelled atoms, integer / rational / irrational scalings, negative and fractional exponents, prefixes, nested products) extracted from the constant evaluator and compared, up to the order of factors, with the documented grammar; re-asserted on both compilers; own-label rule over every unit-like record of au/units (S) with derived-without-label units; prefix x unit labels; common-unit EQUIV labels; IToA/UIToA on boundary and seeded 64-bit integers; streaming wrappers per (unit, 10 arithmetic reps + char / signed char / unsigned char / wchar_t / char16_t, quantity|point): resolved callee sequence in the IR",
         samples=[dict(tree=cppexpr(ts[0]), model_label=trees.label_text(ts[0], marker))], exhaustive=False,
         trees=len(ts), label_obligations=nob, label_discharged=ndis, unit_like_records=len(recs), marker=marker,
         w_items=len(items), w_mismatches=nbad, streaming_wrappers=ns[0], streaming_ok=ns[1], configs=[c.name for c in configs], engine_stats=stats))
